@@ -65,7 +65,22 @@ def cases(rng, tier):
         yield "mn_from_ent " + sx(rb(n - 1).hex() + "  "), "text-length-right-size-wrong"
 
 
+    # the module's public helpers are pure: calling them — with legal or illegal sizes — between requests must not
+    # change what is accepted afterwards (helper call, then the request it could influence, in one process)
+    for n in list(range(0, 65)) if tier == "thorough" else [0, 1, 15, 17, 19, 31, 33, 40, 64] + [rng.randrange(65) for _ in range(4)]:
+        yield "mn_slen %d" % (8 * n), "helper-sentence-length"
+        yield "mn_cslen %d" % (8 * n), "helper-checksum-length"
+        yield "mn_bits_ok %d" % (8 * n), "helper-bits-ok"
+        yield "mn_from_ent " + sx(rb(n).hex()), "after-helpers"
+        yield "mn_slen %d" % n, "helper-sentence-length"
+        yield "mn_bits_ok %d" % n, "helper-bits-ok"
+    for n in SIZES:
+        yield "mn_from_ent " + sx(rb(n).hex()), "after-helpers"
+
+
 def nontrivial(line, out):
+    if not line.startswith("mn_from_ent"):
+        return True
     e = unstr(line.split(" ")[1])
     return len(set(e)) > 2
 
@@ -81,8 +96,16 @@ def words():
 
 
 def oracle(line, out):
-    e = unstr(line.split(" ")[1])
+    op, arg = line.split(" ")[:2]
     v = ok_val(out)
+    if op in ("mn_slen", "mn_cslen", "mn_bits_ok"):
+        n = int(arg)
+        if op == "mn_bits_ok":
+            return None if (v is not None) == (n in (128, 160, 192, 224, 256)) else \
+                "correct_entropy_bits_value accepts/refuses the wrong size %d" % n
+        want = (n + n // 32) // 11 if op == "mn_slen" else n // 32
+        return None if v == str(want) else "%s(%d) = %s, expected %d" % (op, n, v, want)
+    e = unstr(arg)
     try:
         eb = bytes.fromhex(e)
     except ValueError:
